@@ -492,8 +492,36 @@ impl<'a> Model for PoolModel<'a> {
     }
 }
 
+fn parse_ev(s: &str) -> Option<Ev> {
+    let (name, a) = bfs::parse_call(s);
+    Some(match name.as_str() {
+        "Submit" => Ev::Submit(*a.first()? as usize),
+        "SubmitInvalid" => Ev::SubmitInvalid,
+        "RelayConnect" => Ev::RelayConnect(*a.first()? as usize),
+        "RelayDisconnect" => Ev::RelayDisconnect(*a.first()? as usize),
+        "RelayTick" => Ev::RelayTick,
+        "GetRelay" => Ev::GetRelay(*a.first()? as usize),
+        _ => return None,
+    })
+}
+
 pub(crate) fn run(opts: &Opts, report: &mut Report) {
     let thorough = opts.thorough();
+    // a recorded event list of the pool / relay search is replayed directly
+    if let Some((_config, events)) = opts.replay.as_deref().and_then(bfs::read_replay) {
+        let env = Env::dummy();
+        let chain = build_chain(&env);
+        let txs: Vec<TransactionView> = (0..5).map(|i| valid(&env, &chain, i)).collect();
+        let (op5, cap5) = cell(&chain, 5);
+        let invalid = build_tx(&[env.scripts.always_dep.clone()], &[op5], &[OutSpec::lock(&env.scripts.b, cap5 + 1)], 999);
+        let m = PoolModel { env: &env, chain, txs, invalid, track: RefCell::new(Track::default()) };
+        let evs: Vec<Ev> = events.iter().filter_map(|e| parse_ev(e)).collect();
+        let mut rep = |hist: &[Ev], class: String, detail: String| {
+            report.violation(class, format!("after {:?}: {}", hist, detail), json!({"events": hist.iter().map(|e| format!("{:?}", e)).collect::<Vec<_>>(), "pool_limit": LIMIT}));
+        };
+        bfs::replay_one(&m, &evs, &mut rep);
+        return;
+    }
     const SHARDS: usize = 16;
     // item 0: the mutation cases; items 1..: the pool / relay search
     let n_items = 1 + SHARDS;
